@@ -15,3 +15,21 @@ package preflight
 //@   loop 1 invariant len(violations) == 0 ==> (forall i int :: 0 <= i && i < idx ==> pfPassed(checker, owner, objstate(&objs[i])))
 //@   loop 1 invariant failedSoFar() == old(failedSoFar()) && W() == old(W())
 //@   loop 1 invariant gomem_unchanged() && (cap(violations) == 0 || (fresh(sarr(violations)) && allocated(sarr(violations))))
+
+// The namespace rule (C11): for a namespaced owner, an object that names a namespace must name the owner's. The rule is
+// skipped only when the phase in the context is delegated to another controller (class set).
+//@ func package-operator.run/internal/preflight.phaseFromContext
+//@   trusted
+//@   readonly
+//@   ensures found ==> phase.Class == ctxPhaseClass(ctx)
+//@   ensures !found ==> ctxPhaseClass(ctx) == ""
+//@ func package-operator.run/internal/preflight.NewContextWithPhase
+//@   trusted
+//@   readonly
+//@   fresh result
+//@   ensures ctxPhaseClass(result) == phase.Class
+//@ func package-operator.run/internal/preflight.addPositionToViolations
+//@   assigns mem
+//@   ensures len(*vs) == old(len(*vs))
+//@ func package-operator.run/internal/preflight.(*NamespaceEscalation).Check
+//@   ensures [C11] err == nil && len(violations) == 0 && len(ns(owner)) > 0 && ctxPhaseClass(ctx) == "" && len(ns(obj)) > 0 ==> ns(obj) == ns(owner)
